@@ -2,10 +2,88 @@
 
 package event
 
-// Contracts used by other packages' proofs. Building an event touches only the event itself.
-// (Functional contracts for the option constructors belong to property C05.)
+// Contracts for events (property C05), checked by /verif/govc.
+// Comment-only file: it adds nothing to any build.
 //
+// An event's key-value store is a sync.Map; its assumed contract exposes it as the ghost map
+// (ghas, gstore) keyed by the boxed key. kv(e, k) below is the value stored under string key k.
+//@ spec has(e Event, k string) bool = e.sm.ghas[any(k)]
+//@ spec kv(e Event, k string) any = e.sm.gstore[any(k)]
+//
+// Building an event touches only the event itself (frame trusted where the options are dynamic).
 //@ func New
 //@   trusted
 //@   nonnil
 //@   modifies nothing
+//
+//@ func (Event).Store
+//@   ensures has(e, s) && kv(e, s) == v
+//@   ensures [others] forall k string :: k != s ==> has(e, k) == old(has(e, k)) && kv(e, k) == old(kv(e, k))
+//@   modifies ghost(ghas), ghost(gstore)
+//
+//@ func (Event).Has
+//@   ensures result == has(e, s)
+//@   modifies nothing
+//
+//@ func (Event).Get
+//@   ensures [string] has(e, s) && typeis(kv(e, s), string) ==> result == unbox(kv(e, s), string)
+//@   ensures [other] !(has(e, s) && typeis(kv(e, s), string)) ==> result == ""
+//@   modifies nothing
+//
+// Payload: text, hex and length are all taken from the same bytes.
+//@ func Payload$1
+//@   ensures kv(m, "payload") == any(str(data)) && kv(m, "payload-hex") == any(hexenc(str(data))) && kv(m, "payload-length") == any(len(data))
+//@   ensures has(m, "payload") && has(m, "payload-hex") && has(m, "payload-length")
+//@   ensures [others] forall k string :: k != "payload" && k != "payload-hex" && k != "payload-length" ==> has(m, k) == old(has(m, k)) && kv(m, k) == old(kv(m, k))
+//@   modifies ghost(ghas), ghost(gstore)
+//
+// Addresses: TCP and UDP addresses are split into ip and port under the source-/destination- keys;
+// other address kinds store nothing.
+//@ func SourceAddr$1
+//@   ensures [tcp] typeis(addr, *net.TCPAddr) ==> kv(m, "source-ip") == any(ipstr(unbox(addr, *net.TCPAddr).IP)) && kv(m, "source-port") == any(unbox(addr, *net.TCPAddr).Port)
+//@   ensures [udp] typeis(addr, *net.UDPAddr) ==> kv(m, "source-ip") == any(ipstr(unbox(addr, *net.UDPAddr).IP)) && kv(m, "source-port") == any(unbox(addr, *net.UDPAddr).Port)
+//@   ensures [only-source] forall k string :: k != "source-ip" && k != "source-port" ==> has(m, k) == old(has(m, k)) && kv(m, k) == old(kv(m, k))
+//@   ensures [other-kinds] !typeis(addr, *net.TCPAddr) && !typeis(addr, *net.UDPAddr) ==> (forall k string :: has(m, k) == old(has(m, k)) && kv(m, k) == old(kv(m, k)))
+//@   modifies ghost(ghas), ghost(gstore)
+//
+//@ func DestinationAddr$1
+//@   ensures [tcp] typeis(addr, *net.TCPAddr) ==> kv(m, "destination-ip") == any(ipstr(unbox(addr, *net.TCPAddr).IP)) && kv(m, "destination-port") == any(unbox(addr, *net.TCPAddr).Port)
+//@   ensures [udp] typeis(addr, *net.UDPAddr) ==> kv(m, "destination-ip") == any(ipstr(unbox(addr, *net.UDPAddr).IP)) && kv(m, "destination-port") == any(unbox(addr, *net.UDPAddr).Port)
+//@   ensures [only-destination] forall k string :: k != "destination-ip" && k != "destination-port" ==> has(m, k) == old(has(m, k)) && kv(m, k) == old(kv(m, k))
+//@   modifies ghost(ghas), ghost(gstore)
+//
+//@ func SourceIP$1
+//@   ensures kv(m, "source-ip") == any(ipstr(ip)) && (forall k string :: k != "source-ip" ==> has(m, k) == old(has(m, k)) && kv(m, k) == old(kv(m, k)))
+//@   modifies ghost(ghas), ghost(gstore)
+//@ func DestinationIP$1
+//@   ensures kv(m, "destination-ip") == any(ipstr(ip)) && (forall k string :: k != "destination-ip" ==> has(m, k) == old(has(m, k)) && kv(m, k) == old(kv(m, k)))
+//@   modifies ghost(ghas), ghost(gstore)
+//
+//@ func Custom$1
+//@   ensures has(m, name) && kv(m, name) == value && (forall k string :: k != name ==> has(m, k) == old(has(m, k)) && kv(m, k) == old(kv(m, k)))
+//@   modifies ghost(ghas), ghost(gstore)
+//@ func Token$1
+//@   ensures has(m, "token") && kv(m, "token") == any(token) && (forall k string :: k != "token" ==> has(m, k) == old(has(m, k)) && kv(m, k) == old(kv(m, k)))
+//@   modifies ghost(ghas), ghost(gstore)
+//@ func Category$1
+//@   ensures has(m, "category") && (forall k string :: k != "category" ==> has(m, k) == old(has(m, k)) && kv(m, k) == old(kv(m, k)))
+//@   modifies ghost(ghas), ghost(gstore)
+//
+// MergeFrom keeps what the event already has; CopyFrom overwrites.
+//@ func MergeFrom$1
+//@   ensures [keeps] forall k string :: old(has(m, k)) ==> has(m, k) && kv(m, k) == old(kv(m, k))
+//@   ensures [adds] forall k string :: !old(has(m, k)) && haskey(data, k) ==> has(m, k) && kv(m, k) == data[k]
+//@   ensures [nothing-else] forall k string :: !old(has(m, k)) && !haskey(data, k) ==> !has(m, k)
+//@   modifies ghost(ghas), ghost(gstore)
+//@   loop 1: invariant forall k string :: old(has(m, k)) ==> has(m, k) && kv(m, k) == old(kv(m, k))
+//@   loop 1: invariant forall k string :: !old(has(m, k)) && visited(k) ==> has(m, k) && kv(m, k) == data[k]
+//@   loop 1: invariant forall k string :: !old(has(m, k)) && !visited(k) ==> !has(m, k)
+//@   loop 1: invariant forall k string :: visited(k) ==> haskey(data, k)
+//
+//@ func CopyFrom$1
+//@   ensures [overwrites] forall k string :: haskey(data, k) ==> has(m, k) && kv(m, k) == data[k]
+//@   ensures [keeps-others] forall k string :: !haskey(data, k) ==> has(m, k) == old(has(m, k)) && kv(m, k) == old(kv(m, k))
+//@   modifies ghost(ghas), ghost(gstore)
+//@   loop 1: invariant forall k string :: visited(k) ==> has(m, k) && kv(m, k) == data[k]
+//@   loop 1: invariant forall k string :: !visited(k) ==> has(m, k) == old(has(m, k)) && kv(m, k) == old(kv(m, k))
+//@   loop 1: invariant forall k string :: visited(k) ==> haskey(data, k)
